@@ -1,4 +1,14 @@
 // ---- CHECKED ----
+/// C03: a piece of the path that may be delivered: it percent-decodes to valid UTF-8 that is neither '.' nor '..'
+pub open spec fn acceptable(piece: Seq<char>) -> bool {
+    pct_decode(piece) is Some && pct_decode(piece)->Some_0 != "."@ && pct_decode(piece)->Some_0 != ".."@
+}
+/// the non-empty pieces between slashes, in order ("repeated or trailing slashes" only add empty pieces)
+pub open spec fn is_kept<'a>() -> spec_fn(&'a str) -> bool { |p: &'a str| p@.len() > 0 }
+pub open spec fn kept_pieces<'a>(path: &'a str) -> Seq<&'a str> {
+    slash_strs(path).filter(is_kept())
+}
+
 proof fn sentinel_v12_prelude_consistent()
     ensures false
 {
